@@ -144,6 +144,22 @@ pub fn check_est_net(v: &[EstTime], links: &[Link], origins: &[u32], dests: &[u3
         }
     }
     let start_shifted = v[0].time_sched.value < depart - 1e-6;
+    // shortest remaining walk to the end from every node (own relaxation, reverse topological
+    // order).  The backward pass is designed to leave t(n) = t(last) - remaining(n): on an
+    // alternate branch that is earlier than the split node by the branch's slack, which is the
+    // one listed way a scheduled time goes below zero.
+    let mut remaining = vec![f64::INFINITY; n];
+    remaining[last] = 0.0;
+    for i in order.iter().rev() {
+        for (c, _) in net.out(*i) {
+            let d = w(v, *i, c) + remaining[c];
+            if d < remaining[*i] {
+                remaining[*i] = d;
+            }
+        }
+    }
+    let t_end = v[last].time_sched.value;
+    let latest = |i: usize| (v[i].time_sched.value - (t_end - remaining[i])).abs() <= 1e-6 + 1e-9 * t_end.abs();
     // ---- (4) times
     for (i, e) in v.iter().enumerate() {
         let (t, d, x) = (e.time_sched.value, e.time_to_next.value, e.dist_to_next.value);
@@ -156,7 +172,7 @@ pub fn check_est_net(v: &[EstTime], links: &[Link], origins: &[u32], dests: &[u3
         if t < -1e-9 {
             let alt = if i <= 1 {
                 ":start-node"
-            } else if !on_primary[i] {
+            } else if !on_primary[i] && latest(i) {
                 ":alternate-branch"
             } else if start_shifted {
                 ":start-node-shifted"
